@@ -16,13 +16,15 @@ impl Default for Opts {
 }
 
 pub fn rand_text(rng: &mut Rng, odd: bool) -> String {
-  let pools: [&[&str]; 4] = [
+  let pools: [&[&str]; 5] = [
     &["a", "b", "foo", "bar", "x y", "data", "README", "file.txt", "α", "日本", "é", "🎉"],
     &["a&b", "c=d", "e+f", "g%41h", "i#j", "k?l", "m/n", "o:p", "q,r", "s;t", "\"u\"", "<v>"],
     &["tab\there", "nl\nhere", "cr\rhere", "esc\u{1b}[31m", "nul\u{0}", "bell\u{7}"],
     &["", " ", "  lead", "trail  ", ".", "..", ".hidden"],
+    // text that looks like bencode structure (decoys for anything that scans the raw bytes)
+    &["4:infode", "d4:infod4:name1:xee", "e4:infod6:lengthi1ee", "4:info", "i1e", "6:pieces0:", "ee", "d"],
   ];
-  let pool = if odd { pools[rng.below(4) as usize] } else { pools[0] };
+  let pool = if odd { pools[rng.below(5) as usize] } else { pools[0] };
   let mut s = rng.pick(pool).to_string();
   if rng.chance(1, 3) {
     let extra: &str = *rng.pick(pools[0]);
@@ -62,6 +64,21 @@ pub fn rand_value(rng: &mut Rng, depth: usize) -> B {
       }
       v
     }
+  }
+}
+
+/// a dictionary that looks like a metainfo / info dictionary, to be stored under an unknown key
+pub fn decoy_value(rng: &mut Rng) -> B {
+  let fake_info = B::sorted(vec![
+    (b"length".to_vec(), B::Int(rng.below(100) as i128)),
+    (b"name".to_vec(), B::s("decoy")),
+    (b"piece length".to_vec(), B::Int(16384)),
+    (b"pieces".to_vec(), B::Bytes(rng.bytes(20))),
+  ]);
+  match rng.below(3) {
+    0 => B::sorted(vec![(b"info".to_vec(), fake_info)]),
+    1 => fake_info,
+    _ => B::List(vec![B::sorted(vec![(b"info".to_vec(), fake_info)])]),
   }
 }
 
@@ -141,10 +158,11 @@ pub fn accepted(rng: &mut Rng, o: &Opts) -> (B, Vec<u8>) {
   }
   if o.unknown_keys {
     for _ in 0..rng.below(3) {
-      let k = unknown_key(rng, &INFO_KEYS);
+      let k = if rng.chance(1, 4) { rng.pick(&["info", "a", "zinfo"]).as_bytes().to_vec() } else { unknown_key(rng, &INFO_KEYS) };
       if !info.iter().any(|(kk, _)| *kk == k) {
         let d = rng.below(o.max_depth as u64 + 1) as usize;
-        info.push((k, rand_value(rng, d)));
+        let v = if rng.chance(1, 4) { decoy_value(rng) } else { rand_value(rng, d) };
+        info.push((k, v));
       }
     }
   }
@@ -173,10 +191,11 @@ pub fn accepted(rng: &mut Rng, o: &Opts) -> (B, Vec<u8>) {
   }
   if o.unknown_keys {
     for _ in 0..rng.below(3) {
-      let k = unknown_key(rng, &TOP_KEYS);
+      let k = if rng.chance(1, 3) { rng.pick(&["azureus_properties", "a", "hidden info", "info ", "infox", "libtorrent_resume"]).as_bytes().to_vec() } else { unknown_key(rng, &TOP_KEYS) };
       if !top.iter().any(|(kk, _)| *kk == k) {
         let d = rng.below(o.max_depth as u64 + 1) as usize;
-        top.push((k, rand_value(rng, d)));
+        let v = if rng.chance(1, 3) { decoy_value(rng) } else { rand_value(rng, d) };
+        top.push((k, v));
       }
     }
   }
